@@ -19,7 +19,7 @@ FLOORS = {"quick": {"decisions": 30000, "decisions_multi_level": 8000, "higher_a
                     "lower_served_after_higher_emptied": 2000},
           "thorough": {"decisions": 600000, "decisions_multi_level": 160000, "higher_arrived_during_lower_tx": 40000,
                        "lower_served_after_higher_emptied": 40000}}
-KEYS = tuple(FLOORS["quick"].keys()) + ("higher_arrived_between_pick_and_start", "back_to_back", "idle_then_arrival", "arrival_at_tx_end",
+KEYS = tuple(FLOORS["quick"].keys()) + ("many_level_cases", "deep_queue_cases", "higher_arrived_between_pick_and_start", "back_to_back", "idle_then_arrival", "arrival_at_tx_end",
                                          "arrival_at_tx_end_after_departure")
 # floors for the situations added with the later rounds of seeded changes (evidence that they were really exercised)
 FLOORS["quick"].update({'higher_arrived_between_pick_and_start': 30, 'echoed_arrivals_inside_next_hop_put': 4000})
@@ -38,7 +38,33 @@ def ncases(tier):
 
 def gen_case(rng, i):
     n = rng.randint(6, 90)
-    case = vs.gen_case(rng, "SP", n=n, static=(i % 5 == 0), nflows=rng.randint(2, 6))
+    nflows = rng.randint(2, 6)
+    if i % 20 == 3:
+        nflows = rng.randint(17, 24)          # "any number of flows": more levels than any fixed number of bands
+        n = rng.randint(40, 120)
+    case = vs.gen_case(rng, "SP", n=n, static=(i % 5 == 0), nflows=nflows)
+    if nflows >= 17:
+        levels = list(range(1, nflows + 1))
+        rng.shuffle(levels)
+        case["cfg"]["table"] = {f: levels[k] for k, f in enumerate(case["cfg"]["flows"])}       # all levels distinct
+        for a in case["arrivals"]:
+            a["t"] = a["t"] / 6                   # overload: many levels backlogged at once
+        case["many_levels"] = True
+    if i % 20 == 11:
+        # one low-priority queue that is very deep (70-130 packets at one instant) while higher-priority packets keep arriving
+        tbl = case["cfg"]["table"]
+        flows = case["cfg"]["flows"]
+        low = min(flows, key=lambda f: tbl[f] if f in tbl else tbl[str(f)])
+        size = case["arrivals"][0]["size"]
+        deep = [{"t": 0, "flow": low, "size": size, "split": 0, "drv": 0, "age": 0} for _ in range(rng.randint(70, 130))]
+        tx = size * 8.0 / case["cfg"]["rate"]
+        rest = [dict(a, t=rng.randint(1, 60) * tx + rng.choice([0, tx / 2]), drv=1) for a in case["arrivals"][:30]]
+        for a in rest:
+            a.pop("late", None)
+        case["arrivals"] = deep + sorted(rest, key=lambda a: a["t"])
+        case["static"] = False
+        case.pop("echo", None)
+        case["deep_queue"] = True
     if i % 5 == 1:
         # sustained overload: compress the arrival times
         for a in case["arrivals"]:
@@ -116,6 +142,8 @@ def one_case(ctx, case):
     stats = collections.Counter({k: 0 for k in KEYS})
     run = vs.Run(case, counters=False).go()
     vs.count_features(ctx, run)
+    stats["many_level_cases"] += bool(case.get("many_levels"))
+    stats["deep_queue_cases"] += bool(case.get("deep_queue"))
     if not run.viol:
         c12.time_rules(run, stats, run.bad)
     if not run.viol:
